@@ -174,7 +174,8 @@ CHECKS["C10"] = dict(
     level="fault_enumeration",
     rule=_CFG_GEN + "A case is 1..6 reload attempts after an initial load, each with a fault from {none, file missing, malformed YAML, unknown listener type, hostname address, duplicate listener, "
          "bad cipher in service i key j, bad cipher in legacy key j, listener j of service i unbindable (the tester holds the port)} with i, j generated, so every stage at which loading can fail is reached, "
-         "including after listeners of the new generation were acquired. After every attempt: loadConfig fails iff a fault was injected, then the probe matrix over the union of all endpoints ever mentioned x all key "
+         "including after listeners of the new generation were acquired. In every fifth case the reloads are triggered the way operators do it: the file the server was started with is rewritten and the "
+         "process gets SIGHUP (the outcome is read from the server's log, else from what is served within a bound). After every attempt: loadConfig fails iff a fault was injected, then the probe matrix over the union of all endpoints ever mentioned x all key "
          "materials: listening <=> in the last loaded configuration, authenticates <=> configured there. After Stop: every endpoint closed and the server's goroutines and sockets back to baseline. "
          "Non-trivial = a faulted attempt whose failure point lies after >=1 listener of the new generation was acquired, followed by >=1 further attempt. ('unreadable file' is not generated: the tests run as root.)",
     assumptions=["one executor process per case", "fault 'unreadable file' cannot be produced as root"],
